@@ -120,6 +120,9 @@ def gen_case(rng):
     # a task priority for a target that gets removed would index a missing row: keep priorities on T3 only if T3 is never removed
     if any(e["kind"] == "agent_removal" and e["agent_type"] == "target" for e in events):
         events = [e for e in events if not (e["kind"] == "task_priority" and e["target"] == T_IDS[2])] or events[:1]
+    # a time bias addressed to a sensor that has been removed is an invalid scenario, not a subject of the property
+    if any(e["kind"] == "agent_removal" and e["agent_type"] == "sensor" for e in events):
+        events = [e for e in events if not (e["kind"] == "sensor_time_bias" and e["sensor"] == S_IDS[1])] or events[:1]
     return {"kind": "case", "start": start.isoformat(), "step": step, "n": n, "events": events, "model": "two_body",
             "visible": rng.random() < 0.5}
 
@@ -445,7 +448,7 @@ def eval_case(ctx, case):
                   f"truth of target {tid} after {n} steps differs from the closed form with each delta-v applied once: |dr|={dr:.3e} km |dv|={dv_:.3e} km/s (impulses at {[e['off'] for e in imps]})", wit, mon="truth_trajectory")
         planned = [e for e in imps if e["planned"]]
         unplanned = [e for e in imps if not e["planned"]]
-        if tid in final_est and not unplanned:
+        if tid in final_est and not unplanned and not case.get("visible"):
             de = np.linalg.norm(final_est[tid][3:] - got[3:])
             ctx.check(de <= 2e-4, "estimate-follows-planned", f"estimate of target {tid} differs from truth by {de:.3e} km/s after planned impulses {[e['off'] for e in planned]}", wit, mon="truth_trajectory")
 
